@@ -353,6 +353,119 @@ fn semantic(sc: &str) -> Option<String> {
     r
 }
 
+// ---------------------------------------------------------------------------------------------
+// serde: GAVisitor::visit_seq driven by a scripted SeqAccess (element count, hints, failing element, panicking call)
+// ---------------------------------------------------------------------------------------------
+mod sd {
+    use super::*;
+    use serde::de::{self, DeserializeSeed, Deserializer, SeqAccess, Visitor};
+    use serde::Deserialize;
+    use std::fmt;
+    #[derive(Debug)]
+    pub struct DErr;
+    impl fmt::Display for DErr { fn fmt(&self, _f: &mut fmt::Formatter<'_>) -> fmt::Result { Ok(()) } }
+    impl std::error::Error for DErr {}
+    impl de::Error for DErr { fn custom<T: fmt::Display>(_m: T) -> Self { DErr } }
+    pub struct TrD(#[allow(dead_code)] pub E);
+    impl<'de> Deserialize<'de> for TrD {
+        fn deserialize<D: Deserializer<'de>>(d: D) -> Result<TrD, D::Error> {
+            struct V;
+            impl<'de> Visitor<'de> for V {
+                type Value = TrD;
+                fn expecting(&self, _f: &mut fmt::Formatter) -> fmt::Result { Ok(()) }
+                fn visit_u8<X: de::Error>(self, v: u8) -> Result<TrD, X> { Ok(TrD(E::new(v as usize))) }
+            }
+            d.deserialize_u8(V)
+        }
+    }
+    pub struct ElemDe(pub u8);
+    impl<'de> Deserializer<'de> for ElemDe {
+        type Error = DErr;
+        fn deserialize_any<V: Visitor<'de>>(self, _v: V) -> Result<V::Value, DErr> { Err(DErr) }
+        fn deserialize_u8<V: Visitor<'de>>(self, v: V) -> Result<V::Value, DErr> { v.visit_u8(self.0) }
+        // IgnoredAny-like placeholders (the crate's surplus probe) accept anything
+        fn deserialize_ignored_any<V: Visitor<'de>>(self, v: V) -> Result<V::Value, DErr> { v.visit_unit() }
+        serde::forward_to_deserialize_any! {
+            bool i8 i16 i32 i64 i128 u16 u32 u64 u128 f32 f64 char str string bytes byte_buf option unit unit_struct
+            newtype_struct seq tuple tuple_struct map struct enum identifier
+        }
+    }
+    pub struct Script { pub count: usize, pub err_at: usize, pub hint_up: Option<usize>, pub hint_later: Option<usize>, pub produced: usize, pub hinted: bool, pub excluded: bool }
+    pub struct ScriptDe<'a>(pub &'a mut Script);
+    impl<'de, 'a> Deserializer<'de> for ScriptDe<'a> {
+        type Error = DErr;
+        fn deserialize_any<V: Visitor<'de>>(self, _v: V) -> Result<V::Value, DErr> { Err(DErr) }
+        fn deserialize_tuple<V: Visitor<'de>>(self, _len: usize, v: V) -> Result<V::Value, DErr> { v.visit_seq(ScriptSeq(std::cell::RefCell::new(self.0))) }
+        serde::forward_to_deserialize_any! {
+            bool i8 i16 i32 i64 i128 u8 u16 u32 u64 u128 f32 f64 char str string bytes byte_buf option unit unit_struct
+            newtype_struct seq tuple_struct map struct enum identifier ignored_any
+        }
+    }
+    pub struct ScriptSeq<'a>(pub std::cell::RefCell<&'a mut Script>);
+    impl<'de, 'a> SeqAccess<'de> for ScriptSeq<'a> {
+        type Error = DErr;
+        fn next_element_seed<S: DeserializeSeed<'de>>(&mut self, seed: S) -> Result<Option<S::Value>, DErr> {
+            tick();
+            let s = self.0.get_mut();
+            if s.produced >= s.count { return Ok(None); }
+            if s.produced == s.err_at { return Err(DErr); }
+            s.produced += 1;
+            seed.deserialize(ElemDe((s.produced - 1) as u8)).map(Some)
+        }
+        fn size_hint(&self) -> Option<usize> {
+            tick();
+            let mut s = self.0.borrow_mut();
+            let h = if !s.hinted { s.hinted = true; s.hint_up } else { s.hint_later };
+            // outside the claim: a source reporting "nothing left" while it still holds elements
+            if h == Some(0) && s.produced < s.count { s.excluded = true; }
+            h
+        }
+    }
+    /// -> first configuration showing `want` ("leak" | "double-drop" | "semantic")
+    pub fn sweep<N: ArrayLength>(want: &str) -> Option<String> {
+        let n = N::USIZE;
+        let hints = |m: usize| -> Vec<Option<usize>> { std::iter::once(None).chain((0..=m).map(Some)).collect() };
+        for count in 0..=n + 2 { for err_at in 0..=n + 3 { for hint_up in hints(n + 2) { for hint_later in hints(1) {
+            for pc in (0..(2 * n + 6)).chain([usize::MAX]) {
+                if want == "semantic" && pc != usize::MAX { continue; }
+                reset(usize::MAX, pc);
+                let mut s = Script { count, err_at, hint_up, hint_later, produced: 0, hinted: false, excluded: false };
+                let mut ok = false;
+                let mut order_ok = true;
+                let panicked = tracked(|| {
+                    let r: Result<GenericArray<TrD, N>, DErr> = GenericArray::deserialize(ScriptDe(&mut s));
+                    if let Ok(a) = &r { ok = true; order_ok = a.iter().enumerate().all(|(i, e)| (e.0).0 == i); }
+                    drop(r);
+                });
+                let cfg = format!("scenario=serde.visit_seq N={n} count={count} err_at={} hint_up={hint_up:?} hint_later={hint_later:?} panic_call={} panicked={panicked} ok={ok}",
+                    if err_at > n + 2 { "-".to_string() } else { err_at.to_string() }, if pc == usize::MAX { "-".to_string() } else { pc.to_string() });
+                match (want, verdict()) {
+                    ("leak", Some((Kind::Leak, m))) | ("double-drop", Some((Kind::DoubleDrop, m))) => return Some(format!("{cfg}: {m}")),
+                    _ => {}
+                }
+                if want == "semantic" && !panicked && !s.excluded {
+                    let elem_err = err_at < count && err_at < n;
+                    let hint_ok = hint_up.map_or(true, |h| h == n);
+                    if ok && count != n { return Some(format!("{cfg}: accepted an input that does not offer exactly N elements")); }
+                    if ok && elem_err { return Some(format!("{cfg}: accepted although an element failed to parse")); }
+                    if ok && !hint_ok { return Some(format!("{cfg}: accepted although the up-front hint announced another length")); }
+                    if ok && !order_ok { return Some(format!("{cfg}: elements out of order")); }
+                    if !ok && n > 0 && hint_ok && count == n && !elem_err { return Some(format!("{cfg}: rejected a well-formed input of exactly N elements")); }
+                    if s.produced > n + 1 { return Some(format!("{cfg}: read more than N + 1 elements")); }
+                }
+            }
+        } } } }
+        None
+    }
+}
+fn serde_sweep(want: &str) -> Option<String> {
+    let quiet = std::panic::take_hook();
+    std::panic::set_hook(Box::new(|_| {}));
+    let r = sd::sweep::<U0>(want).or_else(|| sd::sweep::<U1>(want)).or_else(|| sd::sweep::<U2>(want)).or_else(|| sd::sweep::<U3>(want)).or_else(|| sd::sweep::<U4>(want));
+    std::panic::set_hook(quiet);
+    r
+}
+
 /// remove / swap_remove with idx >= N: must panic and drop every element exactly once
 fn oob_sweep(which: &str) -> Option<String> {
     macro_rules! one { ($N:ty) => {{
@@ -405,6 +518,12 @@ fn main() {
         match oob_sweep(&args[1]) {
             Some(msg) => { println!("REPRODUCED scenario={} {msg}", args[1]); std::process::exit(1) }
             None => { println!("NOT-REPRODUCED scenario={}: out-of-bounds remove panics and drops every element once for N <= 4", args[1]); return; }
+        }
+    }
+    if args[1].starts_with("serde.") {
+        match serde_sweep(&args[2]) {
+            Some(msg) => { println!("REPRODUCED {msg}"); std::process::exit(1) }
+            None => { println!("NOT-REPRODUCED scenario={} kind={}: native sweep over N <= 4, element count <= N + 2, every hint, failing element and panicking call", args[1], args[2]); return; }
         }
     }
     if args[2] == "semantic" {
